@@ -61,7 +61,7 @@ def gen(rng, tier, widen=False):
         return gen_gain_saturation(rng)
     # RamanFiber placements that make designed_network raise (open finding raman-gain-before-estimate of C08) are kept
     # out of this generator
-    c = G.gen_case(rng, tier, widen, raman_crash_rate=0.0)
+    c = G.gen_case(rng, tier, widen, raman_crash_rate=0.0, lumped=True)
     c['kind'] = 'design'
     return c
 
@@ -278,6 +278,10 @@ def run_design(case, drv):
     model_err = next((a['error'] for a in answers if 'error' in a), None)
     if err is not None or model_err is not None:
         res.cmp_exact('designed_network.error', err, model_err)
+        if err == 'NetworkTopologyError' and model_err == 'NetworkTopologyError':
+            # a generated lumped loss exactly on a sub-span boundary: rejected by the Fiber constructor (see C08)
+            res.stats.update({'design': 1, 'lump_on_boundary_rejected': 1})
+            return res
         if err is not None:
             cls = 'unlisted'
             if err == 'TypeError' and case.get('has_raman'):
